@@ -397,12 +397,17 @@ func c19GraphTheorems(c *Ctx, cs *c19Case, plain *syntax.Ast, base *c19Compiled)
 	r := c.Res
 	enc, types := c19Encode(plain), c19EncodeTypes(base.Ast)
 	type cand struct{ op, callable, param string }
-	var ins, cals []cand
+	var ins, outs, cals []cand
 	for _, cl := range base.Ast.Callables.List {
 		cals = append(cals, cand{"renameCallable", cl.GetId(), ""})
 		if ps := cl.GetInParams(); ps != nil {
 			for _, p := range ps.List {
 				ins = append(ins, cand{"renameInput", cl.GetId(), p.Id})
+			}
+		}
+		if ps := cl.GetOutParams(); ps != nil {
+			for _, p := range ps.List {
+				outs = append(outs, cand{"renameOutput", cl.GetId(), p.Id})
 			}
 		}
 	}
@@ -417,7 +422,7 @@ func c19GraphTheorems(c *Ctx, cs *c19Case, plain *syntax.Ast, base *c19Compiled)
 	if c.Thorough {
 		n = 6
 	}
-	for _, cd := range append(pick(ins, n), pick(cals, 1)...) {
+	for _, cd := range append(append(pick(ins, n), pick(outs, n)...), pick(cals, 1)...) {
 		newName := "zz_fresh"
 		if cd.op == "renameCallable" {
 			newName = "ZZ_FRESH"
@@ -439,11 +444,11 @@ func c19GraphTheorems(c *Ctx, cs *c19Case, plain *syntax.Ast, base *c19Compiled)
 			r.violate(Violation{Kind: "correspondence", Key: "C19:graph-theorem-instance",
 				What:   "an instance of the call-graph theorem for " + cd.op + " evaluates to false in the model (or could not be evaluated): " + rep,
 				Input:  c19Replay{Program: cs.Src, Edit: e, Note: "found in " + cs.Name},
-				Broken: "Props.C19.rename_input_graph / rename_callable_graph"})
+				Broken: "Props.C19.rename_input_graph / rename_output_graph / rename_callable_graph"})
 			continue
 		}
 		r.count("graph-thm\x00"+cs.Src+"\x00"+e.String(), f["hyp"] == "true")
-		if f["hyp"] != "true" || cd.op != "renameInput" {
+		if f["hyp"] != "true" || cd.op == "renameCallable" {
 			continue
 		}
 		// the theorem's prediction against the real edit and the real graph
@@ -455,7 +460,7 @@ func c19GraphTheorems(c *Ctx, cs *c19Case, plain *syntax.Ast, base *c19Compiled)
 		after, err := c19Compile(out, cs.Path)
 		if err != nil || after.Graph == nil {
 			r.violate(Violation{Kind: "property", Key: "C19:graph-theorem:edited-program-does-not-compile",
-				What:  fmt.Sprintf("the hypothesis of rename_input_graph holds but the really edited program does not compile: %v", err),
+				What:  fmt.Sprintf("the hypothesis of the call-graph theorem for %s holds but the really edited program does not compile: %v", cd.op, err),
 				Input: c19Replay{Program: cs.Src, Edit: e, Note: "found in " + cs.Name}, Impl: out})
 			continue
 		}
@@ -467,13 +472,13 @@ func c19GraphTheorems(c *Ctx, cs *c19Case, plain *syntax.Ast, base *c19Compiled)
 		if strings.Join(real, "\n") != strings.Join(pred, "\n") {
 			r.hist("graph-theorem:prediction-DIFFERENT")
 			r.violate(Violation{Kind: "property", Key: "C19:graph-theorem:real-graph-differs-from-prediction",
-				What:   "after the real edit " + e.String() + " the real call graph is not the graph before with the input key renamed (the conclusion of rename_input_graph, whose hypothesis holds for this program)",
+				What:   "after the real edit " + e.String() + " the real call graph is not the graph before with the parameter renamed (the conclusion of rename_input_graph / rename_output_graph, whose hypothesis holds for this program)",
 				Input:  c19Replay{Program: cs.Src, Edit: e, Note: "found in " + cs.Name},
 				Impl:   strings.Join(real, "\n"),
 				Model:  strings.Join(pred, "\n"),
-				Broken: "Props.C19.rename_input_graph on the real code"})
+				Broken: "Props.C19.rename_input_graph / rename_output_graph on the real code"})
 		} else {
-			r.hist("graph-theorem:prediction-equals-real-graph")
+			r.hist("graph-theorem:" + cd.op + ":prediction-equals-real-graph")
 		}
 	}
 }
